@@ -22,7 +22,11 @@ unsafe impl OpCode for CreateSocket {
     }
 
     unsafe fn set_result(&mut self, _: &mut Self::Control, res: &io::Result<usize>, _: &Extra) {
-        if let Ok(fd) = res {
+        // The blocking fallback (`call`) has already stored the socket; adopting the
+        // descriptor a second time would close it and keep a dangling one.
+        if self.opened_fd.is_none()
+            && let Ok(fd) = res
+        {
             // SAFETY: fd is a valid fd returned from kernel
             let fd = unsafe { Socket2::from_raw_fd(*fd as _) };
             self.opened_fd = Some(fd);
@@ -106,7 +110,11 @@ unsafe impl<S: AsFd> OpCode for Accept<S> {
     }
 
     unsafe fn set_result(&mut self, _: &mut Self::Control, res: &io::Result<usize>, _: &Extra) {
-        if let Ok(fd) = res {
+        // The blocking fallback (`call`) has already stored the socket; adopting the
+        // descriptor a second time would close it and keep a dangling one.
+        if self.accepted_fd.is_none()
+            && let Ok(fd) = res
+        {
             // SAFETY: fd is a valid fd returned from kernel
             let fd = unsafe { Socket2::from_raw_fd(*fd as _) };
             self.accepted_fd = Some(fd);
